@@ -17,6 +17,11 @@ CHECKS = {
             "For all four channels every message the crate emits (frontend requests, backend replies/acks, backend-initiated requests and their acks, GPU requests) is produced for the whole argument lattice (pairwise-distinct byte-asymmetric patterns, per-field boundary sweeps, 1..=32 regions, config lengths 1..=4084, queue indexes 0..=255, GPU payloads 0..=4096) under REPLY_ACK negotiated/not x NEED_REPLY on/off, captured by a raw peer and compared byte for byte and descriptor for descriptor (identity, attached to byte 0 only) with an independently written codec; conversely each spec-encoded message is fed to the crate and the decoded values compared. Encoding is a pure function of the arguments and the configuration, so exhaustive lattice enumeration is the appropriate level.",
             "Trusted: vmc/src/spec.rs as the specification (written offline from the vhost-user / vhost-user-gpu documents; SET_LOG_BASE reply payload, GET_SHMEM_CONFIG and SHMEM_MAP/UNMAP layouts as upstream defines them). Padding bytes the specification leaves open are don't-care. Values strictly between lattice points are not enumerated.",
             "DESIGN.md 4/C01"),
+    "C02": ("model_checking", "lattice",
+            "exhaustive enumeration of (operation x accepted-argument lattice x negotiation/flag configuration) and of all ordered operation pairs on the real Frontend<->BackendReqHandler pair in single-threaded coop mode, recording handler as oracle",
+            "Every frontend operation is invoked with the whole accepted-argument lattice (64-bit patterns, queue indexes 0..=255 and 256..0x7fff, config windows and payload lengths, 1..=32 regions, five descriptor kinds) under REPLY_ACK negotiated/not x NEED_REPLY on/off against the real backend request server behind the library's Mutex adapter; all ordered pairs of operations cover the position in a longer session. Oracle: the recording handler's log grew by exactly one entry - same operation, equal arguments, payload bytes, files with the same (st_dev, st_ino) - and did so before the call returned whenever an ack/reply was awaited; every locally rejected argument class leaves 0 bytes on the wire. The RwLock/RefCell VhostBackend adapters are driven with a method-name-logging inner object.",
+            "Trusted: file identity via fstat; coop driver behaves like the daemon thread. Two recorded findings (SET_LOG_FD and plain SET_LOG_BASE have no handler operation) are listed in known_findings.jsonl.",
+            "DESIGN.md 4/C02"),
     "C03": ("model_checking", "lattice",
             "exhaustive enumeration of (operation x scripted handler outcome x negotiation x flags x position) on the real Frontend<->BackendReqHandler pair in single-threaded coop mode; 'would block forever' decided by the interposer",
             "Every reply-bearing and every acknowledged frontend operation is executed against the real backend request server for every scripted handler outcome (success values incl. 0/max patterns, with/without file, Err, wrong-length config data), with REPLY_ACK negotiated or not, NEED_REPLY on/off, as first call and after a successful call. Both endpoints run on one thread; when the frontend would wait on an empty socket the interposer runs the server, and if the socket is still empty the call is decided to wait forever - no timeout is involved. The returned value is compared with the scripted one.",
